@@ -65,6 +65,10 @@ func main() {
 		os.Exit(r.Finish())
 	case "warm":
 		engine.Warm()
+	case "coldfirst":
+		k, _ := strconv.Atoi(os.Args[3])
+		at, _ := strconv.Atoi(os.Args[4])
+		engine.ColdFirstWorker(os.Args[2], k, at)
 	case "c14cold":
 		engine.C14Cold(os.Args[2], os.Args[3])
 	case "c17worker":
